@@ -170,7 +170,11 @@ _claim("C17",
   "JSON reload agree after every edit of every finite valid history; upward quantitative merges proved, downward "
   "ones refuted by a witness. Run-time: random edit histories on real carvers/discretizers, state, labels, "
   "transform and JSON-reloaded transform compared with the model after each edit.",
-  "Two KNOWN FINDINGS: NaN cannot be re-grouped once merged; quantitative downward merge.",
+  "Two KNOWN FINDINGS: NaN cannot be re-grouped once merged; quantitative downward merge. The two "
+  "transform-after-edit theorems carry the hypothesis that str_nan is the last leader or not a leader (after "
+  "fix 1b184ac the labels are paired with the groups 'non-missing leaders, then str_nan'; the shared Labels model "
+  "of C04 still states coherence for the un-normalised order); the group-into-a-new-name case with a separate "
+  "missing-value group is covered by C17_valid_edit_effect and a vm_compute witness.",
   "Coq proof (induction over edit histories, reuse of C13/C04 lemmas) + correspondence after every edit")
 _claim("C18",
   "Proof over a model of ChainedDiscretizer (known_values flattening and its assertions, unknown handling, level "
